@@ -93,14 +93,17 @@ func stubX509KeyPair(certPEM, keyPEM []byte) (tls.Certificate, error) {
 	if pairFails {
 		return tls.Certificate{}, errors.New("tls: failed to find any PEM data")
 	}
-	return tls.Certificate{Certificate: [][]byte{{1}}}, nil
+	return tls.Certificate{Certificate: [][]byte{{1}, {7}}}, nil // a chain of two: leaf first
 }
 func stubParseCertificate(der []byte) (*x509.Certificate, error) {
 	if parseFails {
 		return nil, errors.New("x509: malformed certificate")
 	}
-	theLeaf = &x509.Certificate{}
-	return theLeaf, nil
+	c := &x509.Certificate{Raw: append([]byte{}, der...)}
+	if len(der) == 1 && der[0] == 1 {
+		theLeaf = c
+	}
+	return c, nil
 }
 func stubGenerate(subject string, dnsNames []string, ipAddresses []net.IP, lifespan time.Duration) ([]byte, []byte, tls.Certificate, error) {
 	genCalls++
@@ -164,7 +167,10 @@ func HarnessC08Get() {
 	loadOK := readClass == 0 && shape == 0 && !pairFails && !parseFails
 	switch {
 	case loadOK:
-		verifAssert(err == nil && cert.Leaf == theLeaf && len(cert.Certificate) == 1 && cert.Certificate[0][0] == 1, "C08.cached-certificate-is-served")
+		verifAssert(err == nil && len(cert.Certificate) == 2 && cert.Certificate[0][0] == 1, "C08.cached-certificate-is-served")
+		// the parsed leaf (from which the advertised fingerprint is computed) is the FIRST certificate,
+		// the one crypto/tls presents
+		verifAssert(cert.Leaf != nil && len(cert.Leaf.Raw) == 1 && cert.Leaf.Raw[0] == 1, "C05.leaf-is-the-served-certificate")
 		verifAssert(genCalls == 0 && len(mkdirs) == 0 && len(writes) == 0, "C08.existing-cache-never-rewritten")
 		verifAssert(string(pairCert) == string(c) && string(pairKey) == string(k), "C08.key-pair-built-from-the-cached-members")
 		verifReach("C08.loaded")
